@@ -143,6 +143,14 @@ func Conforming(t *rapid.T, cfg Cfg) M {
 	for _, tpl := range templates {
 		paths[tpl.path] = b.pathItem(tpl)
 	}
+	if cfg.Unusual && b.chance(3, "oplesspath") {
+		// a path item that declares no operation at all (legal): only a summary, or parameters
+		pi := M{"summary": "nothing here yet"}
+		if b.chance(2, "oplessparams") {
+			pi["parameters"] = []any{M{"name": "q", "in": "query", "schema": M{"type": "string"}}}
+		}
+		paths["/reserved"] = pi
+	}
 	b.ext(paths)
 	doc["paths"] = paths
 
